@@ -1,0 +1,31 @@
+//go:build verif
+
+package io
+
+import "io"
+
+// VerifWriteHook, when set, sees every WriteAt issued through an OffsetWriteSeeker
+// (CARv1 header, sections, index, CARv2 header) before it reaches the underlying writer.
+// If it returns handled=true its (n, err) is the result of the write and the underlying
+// writer is not called; otherwise the write is forwarded unchanged.
+// Only compiled with -tags verif; used by the verification harness to observe the real
+// write order and to inject write faults.
+var VerifWriteHook func(w io.WriterAt, p []byte, off int64) (n int, err error, handled bool)
+
+type verifWriterAt struct{ w io.WriterAt }
+
+func (v verifWriterAt) WriteAt(p []byte, off int64) (int, error) {
+	if h := VerifWriteHook; h != nil {
+		if n, err, handled := h(v.w, p, off); handled {
+			return n, err
+		}
+	}
+	return v.w.WriteAt(p, off)
+}
+
+func verifWrapWriterAt(w io.WriterAt) io.WriterAt {
+	if _, ok := w.(verifWriterAt); ok {
+		return w
+	}
+	return verifWriterAt{w}
+}
